@@ -257,6 +257,7 @@ TUpdCall == Skip
 
 TUpdRet ==
   IF E.hung THEN Reject("C19-update-blocked", <<E.uid>>)
+  ELSE IF E.gone THEN Skip     \* the plugin stopped itself while its update was under way: what it is told is not compared
   ELSE IF E.uid \notin DOMAIN upd THEN Reject("C19-not-delivered", <<E.uid, E.errtext>>)
   ELSE IF upd[E.uid].ids # E.ids THEN Reject("C19-payload-changed", <<E.uid, upd[E.uid].ids>>)
   ELSE IF upd[E.uid].err # E.err THEN Reject("C19-error-changed", <<E.uid, E.errtext>>)
